@@ -16,7 +16,9 @@ THEOREMS = ["C15All." + t for t in ALLSTR] + ["C15Struct." + t for t in STRUCT] 
             "C15.whence_preserves_header", "C15.rawParts_prefix_suffix"]
 STYLES = ("rest", "google", "numpydoc")
 PROSE = ["Summary line here.", "Compute the thing quickly.", "Longer paragraph one", "continues on this line.", "Second paragraph.",
-         "It handles edge cases well", "and is safe to call twice.", "See the manual for details"]
+         "It handles edge cases well", "and is safe to call twice.", "See the manual for details",
+         # a line longer than the emitters' wrap width (100): header prose is the user's, it must not be re-flowed
+         "This sentence is deliberately written on one single very long line so that it is wider than any wrap width an emitter might want to apply to it"]
 # header prose that *mentions* section keywords (legitimate prose; tagged so that findings can be signed narrowly)
 KW_PROSE = {
     "line-Parameters": "Parameters\nare described in the manual, not here.",
@@ -97,8 +99,11 @@ def gen_doc(r):
     blank_ws = r.random() < 0.4
     if blank_ws and not ind:
         d = "\n".join((l if l or r.random() < 0.5 else "    ") for l in d.split("\n"))
+    on_quote_line = bool(ind) and r.random() < 0.2  # the summary sits on the line of the opening quotes (what ast.get_docstring(clean=False) returns): no leading newline
     if ind:
         d = "\n" + "\n".join((" " * ind + l) if (l or blank_ws) else l for l in d.split("\n")) + r.choice(["", "" if minimal else "\n" + " " * ind])
+        if on_quote_line:
+            d = d[1 + ind:]
     return {"doc": d, "style": style, "indent": ind, "header_lines": header_lines, "footer_lines": footer_lines, "has_footer": bool(footer),
             "has_return": bool(ir.get("returns")), "nparams": len(ir["params"]), "names": list(ir["params"]), "kw": kw, "blank_ws": blank_ws, "ret_only": ret_only}
 
